@@ -480,7 +480,7 @@ func stripCondVersions(c *Cond) string {
 	case "not":
 		return "!(" + stripCondVersions(c.Sub[0]) + ")"
 	}
-	k := c.Key()
+	k := verRe.ReplaceAllString(c.Key(), "")
 	// the two readers spell the perennial flag differently before it is stored
 	k = strings.ReplaceAll(k, "conv:bool(cropParam.DAUERKULT)", "GlobalVarsMain.DAUERKULT")
 	return k
